@@ -141,6 +141,12 @@ fn gen_plan(ch: &mut Ch) -> Plan {
             .map(|i| {
                 let m = methods[ch.below(methods.len() as u64, "e.som.method") as usize];
                 let pl: Vec<u8> = if m == 1 || m == 4 || m == 5 { vec![] } else { vec![0x33; 5] };
+                // ... or a Block1 block far beyond anything buffered, on another
+                // path (refused by the handler: must not cost other keys their state)
+                if ch.chance(1, 4, "e.som.far-block1") {
+                    let p3 = vec![seg("elsewhere")];
+                    return build_request(3, MessageType::NonConfirmable, 42000 + i as u16, &[0xED, i as u8], &p3, &[], Some((4095, true, 6)), None, &[0x66; 16]);
+                }
                 // ... or the same method on the path with a trailing empty
                 // segment ("/obs/" next to "/obs"): another key as well
                 if ch.chance(1, 3, "e.som.trailing-slash") {
